@@ -651,6 +651,17 @@ struct MemEngine : Engine {
                     for (unsigned pl = 0; pl < 2; ++pl) sweep.push_back({ti, (unsigned char)op, (unsigned char)(form ? 2 : 0), (unsigned char)n, (unsigned char)pl, 0, 0}); }
                 for (unsigned lane = 0; lane < W; ++lane) { sweep.push_back({ti, 6, 0, (unsigned char)lane, 0, 0, 0}); sweep.push_back({ti, 7, 0, (unsigned char)lane, 0, 0, 0}); }
                 sweep.push_back({ti, 4, 0, (unsigned char)W, 0, 0, 0}); sweep.push_back({ti, 4, 0, (unsigned char)W, 1, 0, 0}); sweep.push_back({ti, 5, 0, 0, 0, 0, 0});
+                if (tier == "thorough") {
+                    // thorough: watch windows on EVERY (op, form, n) at the mid-page placement, the neighbour writer at every instruction
+                    // index of EVERY partial store in all four counted forms, and every distance d to the page boundary via 'near' placements
+                    for (unsigned op = 0; op < 2; ++op) for (unsigned form = 0; form < 4; ++form) for (unsigned n = 0; n <= W; ++n) {
+                        sweep.push_back({ti, (unsigned char)op, (unsigned char)form, (unsigned char)n, (unsigned char)((form & 1) ? 5 : 3), 0, 1});
+                        // single-stepping costs ~35 us per instruction here: for wide types the exhaustive-k sweep takes a spread of n only
+                        bool pick = W <= 16 || n <= 3 || n >= W - 2 || n % (W / 8) <= 1;
+                        if (op == 1 && n > 0 && n < W && form < 2 && pick) sweep.push_back({ti, 1, (unsigned char)form, (unsigned char)n, (unsigned char)((form & 1) ? 5 : 3), 0, 2});
+                    }
+                    for (unsigned op = 0; op < 2; ++op) for (unsigned n = 1; n <= W; ++n) for (unsigned d = 1; d <= W && d <= 16; ++d) sweep.push_back({ti, (unsigned char)op, 0, (unsigned char)n, (unsigned char)(6 + (d - 1)), 0, 0});
+                }
                 // neighbour writer at EVERY instruction index of a partial store, and watch windows on partial load/store
                 if (W > 1) { unsigned ns[3] = {1, W / 2, W - 1};
                     for (unsigned k = 0; k < 3; ++k) { sweep.push_back({ti, 1, 0, (unsigned char)ns[k], 3, 0, 2}); sweep.push_back({ti, 1, 1, (unsigned char)ns[k], 5, 0, 2});
@@ -721,7 +732,8 @@ struct MemEngine : Engine {
             bool aligned = sc.form == 1 || sc.form == 3; char bad = sc.bad ? 'R' : 'N';
             if (sc.op == 0 && bad == 'R') bad = 'H';                       // for loads the second protection kind is a hole
             const char* kinds[6] = {"end_flush", "start_flush", "both", "mid", "straddle", "aligned"};
-            place(s, t, sc.n, aligned, sc.op == 1, kinds[sc.place], 2 + (unsigned)(i % 3), 0, bad);
+            if (sc.place >= 6) place(s, t, sc.n, aligned, sc.op == 1, "end_flush", 2 + (unsigned)(i % 3), sc.place - 5, bad);   // 'near': d elements short of the boundary
+            else place(s, t, sc.n, aligned, sc.op == 1, kinds[sc.place], 2 + (unsigned)(i % 3), 0, bad);
             s.set("fault", sc.fault == 1 ? "watch" : sc.fault == 2 ? "neigh" : "none"); if (sc.fault == 2) { s.set("k", "all"); s.setu("ntag", i); }
         } else if (sc.op <= 3) {
             s.set("form", sc.form ? "ct" : "rt"); s.setu("n", sc.n); gs_indices(s, t, sc.n, sc.place, i, sc.op == 3); s.set("fault", "none");
